@@ -185,6 +185,11 @@ Ascending(ks) == \A i \in 1..(Len(ks) - 1) : Less(ks[i], ks[i + 1])
 IsBST == Ascending(Flat(root))
 SizeOK == size = Size(root) /\ size <= max
 
+\* the sorting definition of the listing agrees with the declarative one
+InorderAgrees ==
+  /\ Inorder(abs, Rev) = InorderDecl(abs, Rev)
+  /\ \A c \in DOMAIN abs.m \cup {0} : InorderAfter(abs, Rev, c) = InorderAfterDecl(abs, Rev, c)
+
 \* refinement: same contents (with representatives), same answers
 Refines ==
   /\ Flat(root) = Inorder(abs, Rev)
